@@ -149,7 +149,7 @@ def corrupt_strings(draw):
         i = draw(st.integers(0, nseg - 1)) * 2 + 1
         flat[i] = draw(st.sampled_from(["1.2.3", "1.2.3.256", "1.2.3.4.5", "a.b.c.d", "1..2.3", "300.1.1.1", "slot1"]))
     else:
-        port = draw(st.sampled_from(["0", "65535", "65536", "70000", "-1", "abc", "", "4a"]))
+        port = draw(st.sampled_from(["0", "65535", "65536", "70000", "-1", "abc", "", "4a", "448:18", ":44818", "44818:", "1:2:3", ":"]))
     s = host + (f":{port}" if port is not None else "")
     for k, seg in enumerate(flat):
         s += seps[k % len(seps)] + str(seg)
